@@ -31,6 +31,7 @@ def run(tier):
         PROP, tier, progs,
         "capture x exit family: closure created in {block, while, repeat, repeat with captured local in the condition, numeric for, generic for, called function} x scope left by {fall-through, break, goto out, goto continue, return, tail call, error caught by pcall (error()/runtime fault/after a nested pcall), error caught by xpcall, coroutine yield then abandon, coroutine death, coroutine error()/runtime fault} x sharing {getter, incrementer+getter, closure over closure, modified after capture}, all %d valid combinations, with register churn before use, plus the same with the captured local in the function's first register; capturing functions retried after a failed protected call / dead coroutine from the same stack position with nothing else captured; fenv programs; random programs with closures" % len(cases),
         [], t0, max_steps=30000, extra_cov={"capture_exit_combinations": len(cases)})
+    lsem.foot_pass(PROP, progs, verd, stats, cov)      # Frames stage 2 (specs/FramesStep.tla)
     rc = verd.finish()
     cov["known_findings_hit"] = sorted(verd.known_hit)
     vlib.write_evidence(PROP, tier, "model_checking", cov, time.time() - t0, len(verd.violations), assumptions=[
@@ -41,6 +42,8 @@ def run(tier):
 
 def replay(path):
     rec = json.load(open(path))
+    if rec["replay"].get("foot"):
+        return lsem.replay_foot(PROP, rec)
     p = rec["replay"]["program"]
     verd = vlib.Verdicts(PROP)
     verd.findings = []
